@@ -2,7 +2,7 @@
 # tools/trial_round.sh <round-dir> <id>...  : for every <round-dir>/<id>/MUTANT{1,2}.diff run tools/try_mutant.sh with the
 # property's own check and its sibling checks; prints a condensed record. (SKIP_SUITE=1 is honoured.)
 R=$1; shift
-declare -A SIB=( [C01]="C08 C11 C20" [C02]="C14 C05 C03" [C03]="C02 C01 C10" [C04]="C16 C08" [C05]="C02" [C06]="C07" [C07]="C06" [C08]="C13 C09 C11" [C09]="C13 C08" [C10]="C16 C12 C01" [C11]="C18 C08" [C12]="C20 C10" [C13]="C08 C09" [C14]="C02" [C15]="C16 C08" [C16]="C08 C15" [C17]="" [C18]="C11" [C19]="C03 C16" [C20]="C12 C10" )
+declare -A SIB=( [C01]="C08 C11 C20 C15" [C02]="C14 C05 C03 C13" [C03]="C02 C01 C10" [C04]="C16 C08" [C05]="C02 C13" [C06]="C07" [C07]="C06" [C08]="C13 C09 C11" [C09]="C13 C08" [C10]="C16 C12 C01" [C11]="C18 C08 C04" [C12]="C20 C10 C09" [C13]="C08 C09" [C14]="C02 C13" [C15]="C16 C08" [C16]="C08 C15 C04" [C17]="" [C18]="C11 C01" [C19]="C03 C16" [C20]="C12 C10" )
 for id in "$@"; do
   for i in 1 2; do
     f=$R/$id/MUTANT$i.diff
